@@ -1,3 +1,3 @@
 import Gozod.Drv.Loop
-import Gozod.Drv.C08
-def main : IO Unit := Gozod.Drv.runTokens Gozod.Drv.C08.handle
+import Gozod.Drv.C08T
+def main : IO Unit := Gozod.Drv.runTokens Gozod.Drv.C08T.handle
